@@ -1,4 +1,5 @@
 import RlModel.Lemmas.StoreHist
+import RlModel.Lemmas.ValOrderStore
 /-!
 # C07 — Deletes are exact and permanent; compaction is invisible
 
@@ -110,6 +111,24 @@ theorem compaction_keeps_key_order {le : Row → Row → Bool} (tp : TotalPreord
   intro l hl
   obtain ⟨⟨rows, q⟩, _, rfl⟩ := List.mem_map.mp hl
   exact SortedBy.filter tp q _ (sortStable_sorted tp rows)
+
+/-- the key order the engine uses (`Vec<ComparableDataValue>`: `derive(Ord)` of `DataValue` on the
+key projection, lexicographic) is a total preorder — from the laws of `Val.cmp` / `rowCmp` proved in
+Lemmas/ValOrder.lean -/
+theorem keyLe_totalPreorder (k : List Nat) : TotalPreorder (keyLe k) := ⟨keyLe_total k, keyLe_trans k⟩
+
+/-- **compaction_keeps_key_order, unconditional**: for the engine's own key order, the row-set a
+compaction writes for a keyed table is key-sorted whenever its inputs were flushed by the sorted
+memtable, whatever rows their delete vectors hide. -/
+theorem compaction_keeps_key_order_keyLe (k : List Nat) (inputs : List (List Row)) (dead : List (Row → Bool)) :
+    SortedBy (keyLe k)
+      (mergeAll (keyLe k) ((inputs.zip dead).map fun (rows, q) => (sortStable (keyLe k) rows).filter q)) :=
+  compaction_keeps_key_order (keyLe_totalPreorder k) inputs dead
+
+example : SortedBy (keyLe [0]) (mergeAll (keyLe [0])
+    (([[[.i32 3], [.i32 1]], [[.i32 2], [.null]]].zip [fun _ => true, fun r => r != [.i32 2]]).map
+      fun (rows, q) => (sortStable (keyLe [0]) rows).filter q)) :=
+  compaction_keeps_key_order_keyLe [0] _ _
 
 /-! ## The store as a whole (theorem S restricted to data statements) -/
 
